@@ -399,7 +399,9 @@ impl Mir {
                 let input = match f.get_argtypes().as_slice() {
                     [] => Some(0),
                     [t] => t.to_type().get_iochannel_count(),
-                    _ => None,
+                    // `fn dsp(l, r)` receives its parameters the way `fn dsp(lr:(float,float))`
+                    // receives its tuple: one input channel per numeric parameter.
+                    ts => Type::Tuple(ts.to_vec()).get_iochannel_count(),
                 };
                 let output = f
                     .return_type
